@@ -17,7 +17,7 @@ import numpy as np
 
 from sim.kernel import (EventLog, Outcome, PlanRng, Violation, call, compare, fingerprint, sig)
 from sim.seams import (ErrstateRaise, LineInterrupter, SimInterrupt, SolveSeam, WarningsAsErrors,
-                       ambient_perturb, import_dreye)
+                       ambient_perturb, import_dreye, own_entropy)
 
 ID = "C14"
 PANEL_PER_MODE = 3
@@ -689,6 +689,7 @@ def build_nf(cs: ClientState, pool, meta):
 
 def execute(plan):
     setup()
+    own_entropy(plan["run_seed"])
     # private copies: a defect that writes into caller arrays must never alter the plan itself
     pool = {k: (v.copy() if isinstance(v, np.ndarray) else v) for k, v in plan["pool"].items()}
     meta = plan["meta"]
